@@ -35,8 +35,8 @@ fixed("F1", "C03", "fe2afc8", "INSERT of NULL into a PRIMARY KEY/UNIQUE column f
 open_("F3", "C03", "with more than three relations (tables + indexes) concurrent inserts corrupt catalog rows: 'table not found', panics or process abort", "O-res", "more_than_3_relations", "findings/F3-many-relations-concurrent-catalog-updates.json")
 
 # ---- open findings: constraints (C07) ----
-open_("U1", "C07", "after an INSERT of key K was rolled back, K can be inserted twice: the UNIQUE check finds the aborted index entry and misses the live one", "O-res", "collision_with_key_of_rolled_back_insert", "findings/U1-key-freed-by-rollback-can-be-inserted-twice.json")
-open_("U1b", "C07", "a key left behind by a failed multi-row INSERT and inserted again is missed by index lookups (k = K returns nothing)", "O-res", "collision_with_key_of_rolled_back_insert", "findings/U1b-key-of-failed-insert-reinserted-is-missed-by-index-lookup.json")
+fixed("U1", "C07", "120fb94", "after an INSERT of key K was rolled back, K could be inserted twice: the UNIQUE check finds the aborted index entry and misses the live one", "O-res", "findings/U1-key-freed-by-rollback-can-be-inserted-twice.json")
+fixed("U1b", "C07", "120fb94", "a key left behind by a failed multi-row INSERT and inserted again was missed by index lookups (k = K returns nothing)", "O-res", "findings/U1b-key-of-failed-insert-reinserted-is-missed-by-index-lookup.json")
 open_("U2", "C07", "deleting a row and re-inserting its UNIQUE key hides the old row from transactions whose snapshot predates the delete (index entry overwritten)", "O-res", "unique_key_reuse_while_session_open", "findings/U2-reinserted-unique-key-hides-old-row-from-older-snapshot.json")
 open_("U3", "C07", "a transaction that deletes a row and re-inserts its UNIQUE key and then fails leaves the index without the original row", "O-res", "unique_key_reuse_while_session_open", "findings/U3-delete-and-reinsert-of-key-in-rolled-back-txn-breaks-index.json")
 for prop in ("C07",):
@@ -68,7 +68,7 @@ fixed("J1", "C06", "0093459", "an equi-join lost matching rows when the left inp
 open_("U2b", "C06", "DELETE and re-INSERT of a UNIQUE key inside an open transaction hides the committed row from every other transaction's index lookups until the commit", "O-plan", "unique_key_reuse_while_session_open", "findings/U2b-delete-and-reinsert-of-key-in-open-txn-hides-committed-row-from-index-lookups.json")
 for prop in ("C06",):
     open_("D7", prop, "any UPDATE of a table that has a PRIMARY KEY / UNIQUE index fails with 'datatype mismatch ... BigUInt'", "O-res", "update_on_table_with_unique_index", "findings/D7-update-on-table-with-unique-index.json")
-    open_("U1b", prop, "a key left behind by a failed multi-row INSERT and inserted again is missed by index lookups (k = K returns nothing)", "O-res", "collision_with_key_of_rolled_back_insert", "findings/U1b-key-of-failed-insert-reinserted-is-missed-by-index-lookup.json")
+    fixed("U1b", prop, "120fb94", "a key left behind by a failed multi-row INSERT and inserted again was missed by index lookups (k = K returns nothing)", "O-res", "findings/U1b-key-of-failed-insert-reinserted-is-missed-by-index-lookup.json")
 
 # ---- open findings: storage shapes (C12 and everything that stores rows) ----
 open_("D31b", "C12", "rows whose payload needs overflow pages break the tree within a handful of inserts (panic at storage/core/buffer.rs:570, 'Buffer overflow ... on a btreepage')", "O-res", "rows_with_overflow_chains", "findings/D31b-rows-with-overflow-chains-break-the-tree-within-a-few-inserts.json")
